@@ -868,7 +868,11 @@ func (rs *runState) runAttempt(att int, a AttemptPlan, dsnOverride string) {
 			if a.End == "idle" {
 				// the planned cancel point may not exist in this attempt (fewer packets / transactions are left
 				// after earlier attempts): end the idle stream by cancellation anyway
-				time.Sleep(100 * time.Millisecond)
+				if a.Script != nil {
+					time.Sleep(5 * time.Millisecond) // the script is over: nothing more will happen by itself
+				} else {
+					time.Sleep(100 * time.Millisecond)
+				}
 			} else {
 				// everything was sent: give the parser time to consume it (until the handler has been called once per
 				// committing unit served, bounded), then cancel
